@@ -14,4 +14,4 @@ def _compress(tier):
 
 
 def groups(tier, seed):
-    return with_canaries(alg.c03(tier)) + with_canaries([g for g in layer_s.front_groups(["C03", "C11"]) if g.function in ("mzd_pluq", "mzd_ple")]) + _compress(tier)
+    return with_canaries(alg.c03(tier)) + with_canaries([g for g in layer_s.front_groups(["C03", "C11"]) if g.function in ("mzd_pluq", "mzd_ple", "_mzd_pluq")]) + _compress(tier)
